@@ -20,6 +20,10 @@ func init() {
 			"NOT decided: late replies after a timeout, echo interleaving beyond the keep-the-rest rule, loss under arbitrary read segmentation (histories over run-time data and regular expressions).",
 		Assumptions: []string{"RPC methods of one driver are not called concurrently (the property does not quantify over concurrent callers)", "the message-id regular expression extracts the id of the message it is applied to"},
 		Mutants: []Mutant{
+			{ID: "C08-subscription-arm-wins", Desc: "a message with a subscription id is filed as a notification only", Rule: "C08/own-id",
+				Edits: []Edit{{File: "driver/netconf/read.go", Old: "\t\t\tif messageID != 0 {\n", New: "\t\t\tif messageID != 0 && subID == 0 {\n"}}},
+			{ID: "C08-late-replies-dropped", Desc: "storeMessage drops a reply whose id is not above a high-water mark", Rule: "C08/store-unconditional",
+				Edits: []Edit{{File: "driver/netconf/driver.go", Old: "\td.messages[i] = b\n", New: "\tif i <= len(d.messages) {\n\t\treturn\n\t}\n\n\td.messages[i] = b\n"}}},
 			{ID: "C08-subscription-result-unguarded", Desc: "reverse of the fix: the subscription result's sub-match is indexed without a test", Rule: "C08/submatch-guarded",
 				Edits: []Edit{{File: "driver/netconf/subscription.go", Old: "\tif len(subscriptionResult) != idOrSubMatchLen {\n\t\treturn nil, fmt.Errorf(\n\t\t\t\"%w: subscription failed: no subscription result in reply\",\n\t\t\tutil.ErrNetconfError,\n\t\t)\n\t}\n", New: ""}}},
 			{ID: "C08-poll-previous-id", Desc: "sendRPC polls for the previous message id", Rule: "C08/own-id",
@@ -63,6 +67,8 @@ func runC08(c *Ctx, r *Report) {
 	importFoundation(c, r, "C08", "read-returns-dequeued")
 	r.Rule("C08/closed-result-zero", "the reply poller closes its result channel without an answer only once sendRPC's own cancel-only context is over (a call returns its reply or an error, never an empty success)", 1)
 	checkClosedResultZero(c, r, "C08/closed-result-zero")
+	r.Rule("C08/store-unconditional", "storeMessage and storeSubscriptionMessage file what they are handed on every path (no reply that was recognised is dropped)", 2)
+	checkStoreUnconditional(c, r, "C08/store-unconditional")
 	r.Rule("C08/submatch-guarded", "in the NETCONF driver every index into a FindSubmatch result is dominated by a test that the pattern matched (a reply without the expected element yields an error, never a panic)", 2)
 	checkSubmatchGuarded(c, r, "C08/submatch-guarded", []string{"driver/netconf"})
 	importFoundation(c, r, "C08", "netconf-framing")
@@ -356,6 +362,41 @@ func runC08(c *Ctx, r *Report) {
 							r.Bad("C08/own-id", "reader's filing key depends on the message-id match only", c.Pos(pos), "whether the buffer is filed under the message-id found in it is also decided by something else in the message (a subscription id, a stored-state lookup): a reply that carries such content is dropped or filed as something else, and the caller of that request waits for ever")
 						}
 					}
+				}
+			}
+			// the filing itself is not conditional on another id found in the message (a reply whose payload merely contains a
+			// <subscription-id> element is still the reply to its request)
+			var foreign func(v ssa.Value, d int) bool
+			foreign = func(v ssa.Value, d int) bool {
+				if d > 6 {
+					return false
+				}
+				switch x := v.(type) {
+				case *ssa.BinOp:
+					return foreign(x.X, d+1) || foreign(x.Y, d+1)
+				case *ssa.UnOp:
+					return foreign(x.X, d+1)
+				case *ssa.Phi:
+					for _, e := range x.Edges {
+						if foreign(e, d+1) {
+							return true
+						}
+					}
+				case *ssa.Call:
+					if getID != nil && x.Call.StaticCallee() == getID && len(x.Call.Args) == 1 {
+						if fs, ok := x.Call.Args[0].(*ssa.Call); ok && len(fs.Call.Args) == 2 {
+							if f, _, isLoad := fieldLoad(fs.Call.Args[0]); isLoad && f != nil && f.Name() != "messageID" {
+								return true
+							}
+						}
+					}
+				}
+				return false
+			}
+			for _, ec := range edgeConds(storeCall.Block()) {
+				if foreign(ec.Cond, 0) {
+					okKey = false
+					r.Bad("C08/own-id", "the filing of a reply does not depend on another id in the message", c.Pos(ec.Cond.Pos()), "whether a message that carries a message-id is filed as the reply to that request also depends on a subscription id found in it: a reply whose payload contains a <subscription-id> element (the reply to establish-subscription, a <get> of subscription state) is filed as a notification only, and its caller waits for ever")
 				}
 			}
 			// buf is the accumulated buffer: a value that reaches the loop phi (append(b, rb...)); when the filing was
